@@ -53,6 +53,35 @@ func Bases() map[string][]Op {
 		{K: VDel, I: "i", ID: "a"},
 		{K: VAdd, I: "i", ID: "a", V: v(0.75, -1)},
 	}
+	b["int8-batch"] = []Op{mk("cosine", "int8"),
+		{K: VAdd, I: "i", ID: "a", V: v(1, 0.5), M: map[string]any{"s": "x"}},
+		{K: VAdd, I: "i", ID: "b", V: v(-1, 0.25)},
+		{K: VAdd, I: "i", ID: "c", V: v(0.5, 1)},
+		{K: VAdd, I: "i", ID: "d", V: v(1, 1)},
+		{K: VAddBatch, I: "i", Items: []Item{{ID: "e", V: v(1, -0.5), M: map[string]any{"n": 1.0}}, {ID: "f", V: v(0.25, 1)}, {ID: "g", V: v(-1, -1)}}},
+		{K: VDel, I: "i", ID: "e"},
+		{K: VAddBatch, I: "i", Items: []Item{{ID: "e", V: v(0.5, -1)}, {ID: "h", V: v(1, 0.125)}}},
+	}
+	b["f16-batch"] = []Op{mk("euclidean", "float16"),
+		{K: VAddBatch, I: "i", Items: []Item{{ID: "a", V: v(0.1, 3)}, {ID: "b", V: v(2.5, 0.3)}, {ID: "c", V: v(1, 1)}, {ID: "d", V: v(-1, 7)}}},
+		{K: VAddBatch, I: "i", Items: []Item{{ID: "e", V: v(0.7, -0.5), M: map[string]any{"n": 1.0}}, {ID: "f", V: v(0.25, 100.3)}}},
+		{K: VDel, I: "i", ID: "a"},
+		{K: VAddBatch, I: "i", Items: []Item{{ID: "a", V: v(0.9, -1)}, {ID: "h", V: v(1, 0.125)}}},
+	}
+	b["cosine-batch"] = []Op{mk("cosine", "float32"),
+		{K: VAddBatch, I: "i", Items: []Item{{ID: "a", V: v(3, 4)}, {ID: "b", V: v(0, 2), M: map[string]any{"s": "x"}}, {ID: "c", V: v(1, 1)}, {ID: "d", V: v(-5, 0)}}},
+		{K: VAddBatch, I: "i", Items: []Item{{ID: "e", V: v(0, -7), M: map[string]any{"n": 1.0}}, {ID: "f", V: v(2, 2)}}},
+		{K: VDel, I: "i", ID: "b"},
+		{K: VAdd, I: "i", ID: "b", V: v(6, 8)},
+	}
+	b["meta-shift"] = []Op{mk("euclidean", "float32"),
+		{K: VAdd, I: "i", ID: "a", V: v(1, 0), M: map[string]any{"s": "A"}},
+		{K: VAdd, I: "i", ID: "b", V: v(0, 1), M: map[string]any{"s": "B", "n": 2.0}},
+		{K: VAdd, I: "i", ID: "c", V: v(1, 1), M: map[string]any{"s": "C"}},
+		{K: VDel, I: "i", ID: "a"},
+		{K: VSetMeta, I: "i", ID: "c", M: map[string]any{"t": true}},
+		{K: VAdd, I: "i", ID: "d", V: v(2, 2)},
+	}
 	b["compress-f16"] = []Op{mk("euclidean", "float32"),
 		{K: VAdd, I: "i", ID: "a", V: v(0.1, 1), M: map[string]any{"s": "x"}},
 		{K: VAdd, I: "i", ID: "b", V: v(1, 0)},
